@@ -333,6 +333,22 @@ func c08Run(c *core.Ctx) {
 			c.Tick()
 		}
 	}
+	// pinned rare-branch tuples of ZUC (see C06; found on the reference model alone): every prefix of a 400-octet payload
+	// under each of them — a keystream that depends on how many words were asked for breaks prefix stability exactly there
+	if c.Shard == 2%c.NShards && c.Begin("zuc-rare-tuples", "NASEncrypt/NASMacCalculate", "pinned tuples at which the ZUC feedback needs a second fold") {
+		for _, mac := range []bool{false, true} {
+			for _, t := range zucRareTuples(mac) {
+				op := "encrypt"
+				if mac {
+					op = "mac"
+				}
+				for _, l := range []int{13, 64, 200, 400} {
+					run(c08Case{Op: op, Alg: 3, Bearer: int(t.bearer), Dir: int(t.dir), Key: hex.EncodeToString(t.key[:]), Count: t.count, Payload: hex.EncodeToString(patPayload(2, l)), Prefix: true})
+				}
+			}
+		}
+		c.Tick()
+	}
 	// every octet length 81..2100 (thorough ..8300) and around 4096, 8192, 16 384, 65 535 for every algorithm and both
 	// operations with one parameter tuple (length preservation, involution, short prefixes, 4-octet MAC, no panic):
 	// implementation-internal size thresholds sit at lengths no boundary alphabet contains
